@@ -19,7 +19,7 @@ def run(which):
         p = os.path.join(VERIF, 'tools', 'translate', SCRIPTS[w])
         if not os.path.exists(p):
             continue
-        rc, out = sh([PY, p], env={'PYTHONHASHSEED': '0', 'PYTHONPATH': '/repo/src'}, timeout=600)
+        rc, out = sh([PY, p], env={'PYTHONHASHSEED': '0', 'PYTHONPATH': os.path.join(os.environ.get('VERIF_REPO', '/repo'), 'src')}, timeout=600)
         outs.append(out)
         if rc != 0:
             ok = False
